@@ -85,4 +85,12 @@ def s9_first_missing(check=False):
                                                "d.rs": 'fn d() { info!("[ref: 4] four"); }\n'}, check=check)
 
 
-ALL = {"S1": s1, "S2": s2, "S3": s3, "S4": s4, "S5": s5, "S5b": s5b, "S6": s6, "S7": s7, "S8": s8, "S9": s9_last_missing, "S9b": s9_first_missing}
+def s10_nine_files(check=False):
+    """More files than any small constant a batching scheme would use; alternating missing / complete."""
+    files = {}
+    for i in range(9):
+        files["f%d.rs" % i] = ('fn f%d() { info!("needs %d"); }\n' % (i, i)) if i % 2 == 0 else ('fn f%d() { info!("[ref: %d] has"); }\n' % (i, 100 + i))
+    return Scenario("S10-nine-files", files, check=check, lock=200)
+
+
+ALL = {"S1": s1, "S2": s2, "S3": s3, "S4": s4, "S5": s5, "S5b": s5b, "S6": s6, "S7": s7, "S8": s8, "S9": s9_last_missing, "S9b": s9_first_missing, "S10": s10_nine_files}
